@@ -41,6 +41,18 @@ def generate(tier, rng):
                 drvs = [[rng.randint(1, 9) for _ in range(n)], [rng.randint(1, 9) for _ in range(n)], [rng.randint(1, 9) for _ in range(n)]]
                 cases.append(dict(stream="history", gname=gname, grid=grid, cls=cls, solver=solver, seq="".join(s), prms=prms, drvs=drvs,
                                   at=["start", "middle", "end"][k % 3], n_pts=1 + (k % 2), in_system=(k % 5 == 0)))
+    # parameter sets that differ by very little (a finite-difference step; a mean nudged across a cohort age): the new
+    # value must be used, however close it is to the old one
+    near = Fraction(5, 2) + Fraction(1, 2 ** 20)
+    for cls, solver in (("idsm", None), ("sdsm", "manual"), ("sdsm", "lapack")):
+        for s in [q for q in seqs if "P" in q][:: (4 if tier == "quick" else 1)]:
+            k += 1
+            grid = c03.GRIDS["unit"]
+            n = len(grid)
+            prms = [[Fraction(5, 2), near, Fraction(5, 2)], [near, Fraction(5, 2), near],
+                    [dict(dims=["t"], values=[Fraction(5, 2)] * n), dict(dims=["t"], values=[near if i % 2 else Fraction(5, 2) for i in range(n)]), Fraction(5, 2)]][k % 3]
+            cases.append(dict(stream="history", gname="unit", grid=grid, cls=cls, solver=solver, seq="".join(s), prms=prms,
+                              drvs=[[rng.randint(1, 9) for _ in range(n)] for _ in range(3)], at="middle", n_pts=1, in_system=False))
     # two-parameter library models: set_prms changing only the first, only the second, or both parameters
     # (values are not exactly representable: judged by the oracle against a fresh stock, bit for bit)
     two = [[8, 3], [12, 3], [12, 5], [8, 5]]
@@ -54,6 +66,12 @@ def generate(tier, rng):
                 cases.append(dict(stream="tolerance", coq=False, gname="unit", grid=grid, cls=cls, solver=solver, seq="".join(s), kind=kind,
                                   prms=[two[(start + j) % 4] for j in range(3)], drvs=[[rng.randint(1, 9) for _ in range(n)] for _ in range(3)],
                                   at="middle", n_pts=1, in_system=False))
+                if k % 2 == 0:
+                    eps = 1 + 1e-6
+                    close = [[8, 3], [8 * eps, 3], [8 * eps, 3 * eps], [8, 3 * eps]]
+                    cases.append(dict(stream="tolerance", coq=False, gname="unit", grid=grid, cls=cls, solver=solver, seq="".join(s), kind=kind,
+                                      prms=[close[(start + j) % 4] for j in range(3)], drvs=[[rng.randint(1, 9) for _ in range(n)] for _ in range(3)],
+                                      at="middle", n_pts=1, in_system=False))
     return cases
 
 
